@@ -13,7 +13,7 @@
 //	run     = ( backend engine mode limit errclass ( objid ... ) )     objid = interned id of the returned object
 //	stream  = ( backend engine errclass ( ( objid status ) ... ) )    status 1 = NoFurtherEval, 0 = RequiresFurtherEval
 //	backend 0 memory 1 sqlite; engine 0 classic 1 weighted 2 pipeline; mode 0 Execute 1 ExecuteStreamed
-//	errclass 0 none 1 condition 2 too-complex/depth 3 validation 4 other 5 deadline/slow
+//	errclass 0 none 1 condition 2 too-complex/depth 3 validation 4 other 5 deadline/slow 6 hang (no response)
 package main
 
 import (
@@ -58,7 +58,8 @@ import (
 
 const (
 	maxDepth = 25
-	deadline = 20 * time.Second
+	deadline = 6 * time.Second
+	watchdog = deadline + 2*time.Second
 
 	engClassic  = 0
 	engWeighted = 1
@@ -70,6 +71,7 @@ const (
 	errValidation = 3
 	errOther      = 4
 	errSlow       = 5
+	errHang       = 6 // the call did not return within the deadline plus 2 s (abandoned)
 )
 
 // Req is one ListObjects request of a scenario (part of the replay description).
@@ -117,8 +119,15 @@ func classifyErr(err error) int {
 	if err == nil {
 		return errNone
 	}
+	// the weighted engine wraps evaluation errors in reverseexpand.ExecutionError (no Unwrap), and
+	// HandleError hides that behind "Internal Server Error": look at every message of the chain
+	for e := err; e != nil; e = errors.Unwrap(e) {
+		if strings.Contains(e.Error(), condition.ErrEvaluationFailed.Error()) {
+			return errCond
+		}
+	}
 	switch {
-	case errors.Is(err, condition.ErrEvaluationFailed), strings.Contains(err.Error(), condition.ErrEvaluationFailed.Error()):
+	case errors.Is(err, condition.ErrEvaluationFailed):
 		return errCond
 	case errors.Is(err, graph.ErrResolutionDepthExceeded), errors.Is(err, serverErrors.ErrAuthorizationModelResolutionTooComplex):
 		return errComplex
@@ -183,8 +192,31 @@ func engineOpts(engine int, rq Req, limit uint32) []commands.ListObjectsQueryOpt
 	return opts
 }
 
-// list runs one real ListObjects call; mode 0 = Execute, 1 = ExecuteStreamed.
+// list runs one real ListObjects call under a watchdog: a call that does not return within the
+// ListObjects deadline plus 2 s is abandoned (its goroutines leak) and reported as errHang.
 func (r *runner) list(rq Req, engine, mode int, limit uint32) (int, []string) {
+	type res struct {
+		ec   int
+		objs []string
+	}
+	ch := make(chan res, 1)
+	go func() {
+		ec, objs := r.list1(rq, engine, mode, limit)
+		ch <- res{ec, objs}
+	}()
+	select {
+	case x := <-ch:
+		return x.ec, x.objs
+	case <-time.After(watchdog):
+		if os.Getenv("C05_DEBUG") != "" {
+			fmt.Fprintf(os.Stderr, "HANG engine=%d mode=%d limit=%d req=%+v\n", engine, mode, limit, rq)
+		}
+		return errHang, nil
+	}
+}
+
+// list1 runs one real ListObjects call; mode 0 = Execute, 1 = ExecuteStreamed.
+func (r *runner) list1(rq Req, engine, mode int, limit uint32) (int, []string) {
 	q, err := commands.NewListObjectsQuery(r.env.DS, r.resolver, r.env.StoreID, engineOpts(engine, rq, limit)...)
 	if err != nil {
 		panic(err)
@@ -288,7 +320,7 @@ func limitsFor(n int) []uint32 {
 	return out
 }
 
-var errNames = []string{"ok", "cond", "complex", "validation", "other", "slow"}
+var errNames = []string{"ok", "cond", "complex", "validation", "other", "slow", "hang"}
 var engNames = []string{"classic", "weighted", "pipeline"}
 
 func chooseRequests(r *rec.Rand, s *scen.Scenario, subjects []string, probe func(Req) int) []Req {
@@ -426,6 +458,9 @@ func runScenario(ctx context.Context, w *rec.Writer, r *rec.Rand, sq storage.Ope
 				te := time.Now()
 				ec0, objs0 := rn.list(rq, engine, 0, 0)
 				emit(b, engine, 0, 0, ec0, objs0)
+				if ec0 == errHang {
+					continue // no response at all: the remaining calls of this engine would hang as well
+				}
 				if b == 0 && engine == engClassic {
 					switch n := len(objs0); {
 					case n == 0:
